@@ -403,6 +403,11 @@ async fn run_behaviour(rig: &Rig, b: &Value, idx: u64, f: u64, coarse: bool, tra
         }
         out.rounds = rounds;
         out.fixpoint = fixpoint;
+        if !fixpoint {
+            // the pollers were still asking for differences after six rounds: nothing is claimed about this behaviour
+            // (counted; the check fails as a tool error if that happens more than occasionally)
+            return out;
+        }
     }
 
     // final observation
